@@ -260,8 +260,62 @@ func c15RenderMsg(m Message) string {
 		return fmt.Sprintf("H|%d|%d|%d|%d", v.Height, v.Round, v.Type, v.Index)
 	case *NewRoundStepMessage:
 		return fmt.Sprintf("N|%d|%d|%d|%d|%d", v.Height, v.Round, v.Step, v.SecondsSinceStartTime, v.LastCommitRound)
+	case *NewValidBlockMessage:
+		return fmt.Sprintf("NVB|%d|%d|%d/%x|%s|%v", v.Height, v.Round, v.BlockPartsHeader.Total, v.BlockPartsHeader.Hash[:],
+			c15RenderBits(v.BlockParts), v.IsCommit)
+	case *ProposalPOLMessage:
+		return fmt.Sprintf("PPOL|%d|%d|%s", v.Height, v.ProposalPOLRound, c15RenderBits(v.ProposalPOL))
+	case *VoteSetMaj23Message:
+		return fmt.Sprintf("M23|%d|%d|%d|%s", v.Height, v.Round, v.Type, c15RenderBlockID(v.BlockID))
+	case *VoteSetBitsMessage:
+		return fmt.Sprintf("VSB|%d|%d|%d|%s|%s", v.Height, v.Round, v.Type, c15RenderBlockID(v.BlockID), c15RenderBits(v.Votes))
 	}
 	return fmt.Sprintf("?%T", m)
+}
+
+// bit by bit through the public accessor (a nil array and an array of size 0 are the same thing on the wire)
+func c15RenderBits(b *common.BitArray) string {
+	if b == nil || b.Size() == 0 {
+		return "0:"
+	}
+	n := b.Size()
+	if n > 20000 || (n+63)/64 != len(b.Elems) { // GetIndex is only defined on a consistent array
+		return fmt.Sprintf("%d:raw/%d/%x", n, len(b.Elems), b.Elems)
+	}
+	bs := make([]byte, n)
+	for i := 0; i < n; i++ {
+		if b.GetIndex(i) {
+			bs[i] = '1'
+		} else {
+			bs[i] = '0'
+		}
+	}
+	return fmt.Sprintf("%d:%x/%d", n, sha256.Sum256(bs), len(b.Elems))
+}
+
+// bit arrays at the word boundaries of the encoding (63/64/65, 127/128/129), tiny, random, and at the maximum
+func c15Bits(r *c15Rand, max int) *common.BitArray {
+	sizes := []int{1, 2, 63, 64, 65, 127, 128, 129, 1 + r.Intn(300), max - 1, max}
+	n := sizes[r.Intn(len(sizes))]
+	if n > max {
+		n = max
+	}
+	if n < 1 {
+		n = 1
+	}
+	ba := common.NewBitArray(n)
+	mode := r.Intn(4)
+	for i := 0; i < n; i++ {
+		switch mode {
+		case 0:
+			ba.SetIndex(i, r.Bool())
+		case 1:
+			ba.SetIndex(i, true)
+		case 2:
+			ba.SetIndex(i, i == n-1 || i == 0)
+		}
+	}
+	return ba
 }
 
 func c15Render(m WALMessage, t time.Time) string {
@@ -407,7 +461,63 @@ func (g *c15Gen) msg() (WALMessage, bool, string) {
 	bad := g.allowBad && r.Chance(1, 8)
 	var m Message
 	kind := ""
-	switch r.Pick(40, 20, 25, 10, 5) {
+	switch r.Pick(40, 20, 25, 10, 5, 5, 5, 5, 5) {
+	case 5:
+		total := []int{1, 2, 63, 64, 65, 128, 1 + r.Intn(200), types.MaxBlockPartsCount}[r.Intn(8)]
+		nv := &NewValidBlockMessage{Height: c15U64(r), Round: c15U32(r), IsCommit: r.Bool()}
+		nv.BlockPartsHeader.Total = uint32(total)
+		copy(nv.BlockPartsHeader.Hash[:], r.Bytes(32))
+		nv.BlockParts = c15Bits(r, total)
+		for nv.BlockParts.Size() != total {
+			nv.BlockParts = c15Bits(r, total)
+		}
+		if bad {
+			switch r.Intn(3) {
+			case 0:
+				nv.BlockPartsHeader.Total++
+			case 1:
+				nv.BlockParts = &common.BitArray{Bits: uint(total), Elems: make([]uint64, (total+63)/64+1)}
+			default:
+				nv.BlockParts = nil
+			}
+		}
+		m, kind = nv, "newvalidblock"
+	case 6:
+		pp := &ProposalPOLMessage{Height: c15U64(r), ProposalPOLRound: c15U32(r), ProposalPOL: c15Bits(r, types.MaxVotesCount)}
+		if bad {
+			if r.Bool() {
+				pp.ProposalPOL = &common.BitArray{Bits: uint(65 + r.Intn(100)), Elems: []uint64{r.U64()}}
+			} else {
+				pp.ProposalPOL = c15Bits(r, types.MaxVotesCount+1+r.Intn(64))
+			}
+		}
+		m, kind = pp, "proposalpol"
+	case 7:
+		mj := &VoteSetMaj23Message{Height: c15U64(r), Round: c15U32(r), Type: kproto.SignedMsgType(1 + r.Intn(2)), BlockID: c15BlockID(r, r.Intn(2))}
+		if bad {
+			if r.Bool() {
+				mj.Type = kproto.SignedMsgType(r.Intn(40))
+			} else {
+				mj.BlockID = c15BlockID(r, 2)
+			}
+		}
+		m, kind = mj, "votesetmaj23"
+	case 8:
+		vb := &VoteSetBitsMessage{Height: c15U64(r), Round: c15U32(r), Type: kproto.SignedMsgType(1 + r.Intn(2)), BlockID: c15BlockID(r, r.Intn(2))}
+		if !r.Chance(1, 5) { // the array may be absent ("the node does not have any")
+			vb.Votes = c15Bits(r, types.MaxVotesCount)
+		}
+		if bad {
+			switch r.Intn(3) {
+			case 0:
+				vb.Type = kproto.SignedMsgType(r.Intn(40))
+			case 1:
+				vb.Votes = &common.BitArray{Bits: uint(1 + r.Intn(64)), Elems: []uint64{1, 2}}
+			default:
+				vb.BlockID = c15BlockID(r, 2)
+			}
+		}
+		m, kind = vb, "votesetbits"
 	case 0:
 		v := &types.Vote{ValidatorIndex: c15U32(r), Height: c15U64(r), Round: c15U32(r), Timestamp: c15Time(r),
 			Type: kproto.SignedMsgType(1 + r.Intn(2)), Signature: c15Sig(r, bad)}
@@ -721,6 +831,11 @@ type c15Case struct {
 	base  []byte
 	exp   []c15Written // frames wholly inside base, in order
 	whole bool         // base ends at a frame boundary
+	// index in exp of the first frame of each file of the snapshot
+	fileStart  []int
+	forceSmall bool
+	mono       bool // the positive end-height markers of exp increase strictly
+	decodable  bool // every frame of exp reads back
 }
 
 func (c *c15Case) addEntry(p []byte) c15Entry {
@@ -788,15 +903,44 @@ func c15GroupObs(g *auto.Group) string {
 	return fmt.Sprintf("%d %d", g.MaxIndex(), sz)
 }
 
-func c15ReadGroupFiles(head string, maxIndex int) [][]byte {
-	var files [][]byte
-	for i := 0; i < maxIndex; i++ {
+// the rotated files that exist on disk (own directory scan, independent of readGroupInfo): sorted indices and sizes
+func c15DirScan(head string) (idx []int, size map[int]int64, headSize int64) {
+	size = map[int]int64{}
+	ents, _ := os.ReadDir(filepath.Dir(head))
+	base := filepath.Base(head)
+	for _, e := range ents {
+		fi, err := e.Info()
+		if err != nil {
+			continue
+		}
+		if e.Name() == base {
+			headSize = fi.Size()
+			continue
+		}
+		var i int
+		if n, _ := fmt.Sscanf(strings.TrimPrefix(e.Name(), base+"."), "%d", &i); n == 1 && e.Name() == fmt.Sprintf("%s.%03d", base, i) {
+			idx = append(idx, i)
+			size[i] = fi.Size()
+		}
+	}
+	sort.Ints(idx)
+	return
+}
+
+// the files of the group from the oldest one that still exists to the head; first = index of the first one
+func c15ReadGroupFiles(head string, maxIndex int) (files [][]byte, first int) {
+	idx, _, _ := c15DirScan(head)
+	first = maxIndex
+	if len(idx) > 0 {
+		first = idx[0]
+	}
+	for i := first; i < maxIndex; i++ {
 		b, _ := os.ReadFile(fmt.Sprintf("%s.%03d", head, i))
 		files = append(files, b)
 	}
 	b, _ := os.ReadFile(head)
 	files = append(files, b)
-	return files
+	return files, first
 }
 
 // materialises a byte stream as a file group with the given file sizes (the head takes the rest)
@@ -921,7 +1065,8 @@ func TestVerifC15(t *testing.T) {
 		body := "(* GENERATED from /repo's working tree by the harness (-facts); do not edit. *)\n" +
 			"From Coq Require Import NArith.\n" +
 			fmt.Sprintf("Definition max_msg_size_bytes : N := %d%%N.\n", maxMsgSizeBytes) +
-			fmt.Sprintf("Definition head_buf_size : N := %d%%N.\n", g.VerifHeadBufSize())
+			fmt.Sprintf("Definition head_buf_size : N := %d%%N.\n", g.VerifHeadBufSize()) +
+			fmt.Sprintf("Definition max_files_to_remove : N := %d%%N.\n", auto.VerifMaxFilesToRemove())
 		g.Close()
 		g.Head.Close()
 		if err := os.WriteFile(*c15Facts, []byte(body), 0o644); err != nil {
@@ -957,7 +1102,18 @@ func TestVerifC15(t *testing.T) {
 			continue
 		}
 		c := &c15Case{o: o, r: root.Fork(uint64(i)), idx: i, tmp: filepath.Join(tmp, fmt.Sprintf("c%d", i)), table: map[string]c15Entry{}}
-		c.run(*c15Tier)
+		o.curCase = i // oracle lines are written while the case runs, its trace is emitted at the end
+		func() {
+			// a panic out of the WAL / group code (or of the harness) must not lose the oracle lines written so far
+			defer func() {
+				if x := recover(); x != nil {
+					o.Fail(c.step, "panic", fmt.Sprintf("%v", x))
+					c.emit(fmt.Sprintf("CASE %d 0 0", c.idx))
+					c15Abort = true
+				}
+			}()
+			c.run(*c15Tier)
+		}()
 		os.RemoveAll(c.tmp)
 		if c15Abort {
 			break
@@ -971,6 +1127,10 @@ func (c *c15Case) run(tier string) {
 	profile := r.Pick(50, 36, 14)
 	if c.idx%41 == 7 {
 		profile = 3 // megabyte-sized frames at the message size limit
+	}
+	c.forceSmall = c.idx%16 == 3 // a short log on which every single bit is flipped
+	if c.forceSmall {
+		profile = 0
 	}
 	c.addEntry(nil) // the empty payload (zero length field): what the real unmarshal path says about it
 	pname := []string{"small", "medium", "big", "maxsize"}[profile]
@@ -1006,17 +1166,27 @@ func (c *c15Case) run(tier string) {
 	switch profile {
 	case 0:
 		nmsg = 1 + r.Intn(4)
+		if c.forceSmall {
+			nmsg = 1 + r.Intn(3)
+		}
 	case 1:
 		nmsg = 4 + r.Intn(30)
 	case 2:
 		nmsg = 3 + r.Intn(12)
 		g.bigBytes = 65536
 	case 3:
-		nmsg = 2 + r.Intn(3)
+		nmsg = 3 + r.Intn(2)
 	}
 	total := 0
 	tick := func() {
-		grp.VerifCheckHeadSizeLimit()
+		func() {
+			defer func() {
+				if x := recover(); x != nil {
+					o.Fail(c.step, "panic-rotate", fmt.Sprint(x))
+				}
+			}()
+			grp.VerifCheckHeadSizeLimit()
+		}()
 		c.op("T", "t "+c15GroupObs(grp))
 	}
 	flushed := true
@@ -1033,6 +1203,10 @@ func (c *c15Case) run(tier string) {
 			grp.Close()
 		}
 		grp.Head.Close()
+		headBefore := int64(-1)
+		if st, err := os.Stat(walPath); err == nil {
+			headBefore = st.Size()
+		}
 		nw, err := NewWAL(walPath, auto.GroupHeadSizeLimit(curLimit), auto.GroupCheckDuration(time.Hour))
 		if err != nil {
 			o.Fail(c.step, "harness-newwal", err.Error())
@@ -1050,6 +1224,14 @@ func (c *c15Case) run(tier string) {
 		if serr != nil {
 			cls = "err?"
 			o.Fail(c.step, "start-error", serr.Error())
+		}
+		// direct oracle: the height-0 marker that catchupReplay looks for at the initial height is written
+		// exactly when the head file is empty (first start, or the head was rotated away), never otherwise
+		if headBefore == 0 && len(frames) == nf {
+			o.Fail(c.step, "start-marker-missing", fmt.Sprintf("Start on an empty head file (max index %d) wrote no #ENDHEIGHT 0", wal.Group().MaxIndex()))
+		}
+		if headBefore > 0 && len(frames) != nf {
+			o.Fail(c.step, "start-marker-on-nonempty-head", fmt.Sprintf("Start wrote %d frame(s) into a head of %d bytes", len(frames)-nf, headBefore))
 		}
 		var payload []byte
 		if len(frames) == nf+1 && len(frames[nf]) >= 8 {
@@ -1078,6 +1260,90 @@ func (c *c15Case) run(tier string) {
 		flushed = true
 		c.op("RS "+c15Tok(payload), "rs "+cls+" "+c15GroupObs(grp))
 	}
+	// what AutoFile's close ticker does: the head file is closed under the writer and re-opened (O_APPEND) by the next use
+	closeHead := func() {
+		if err := grp.VerifCloseHeadFile(); err != nil {
+			o.Fail(c.step, "harness-closehead", err.Error())
+		}
+		o.Count("op:head-file-closed")
+		c.op("K", "k "+c15GroupObs(grp))
+	}
+	// the ticker's second check: checkTotalSizeLimit with a limit at / around the current total, a fraction of it, 0 or negative
+	prunedBytes := int64(0)
+	prune := func() {
+		idx, size, headSize := c15DirScan(walPath)
+		total := headSize
+		for _, i := range idx {
+			total += size[i]
+		}
+		var tl int64
+		switch r.Pick(4, 4, 3, 1, 1) {
+		case 0:
+			tl = total + int64(r.Intn(3)-1)
+		case 1:
+			tl = total/2 + int64(r.Intn(3)-1)
+		case 2:
+			tl = 1 + int64(r.Intn(int(total)+2))
+		case 3:
+			tl = 0
+		default:
+			tl = -1 - int64(r.Intn(3))
+		}
+		grp.VerifSetTotalSizeLimit(tl)
+		func() {
+			defer func() {
+				if x := recover(); x != nil {
+					o.Fail(c.step, "panic-prune", fmt.Sprint(x))
+				}
+			}()
+			grp.VerifCheckTotalSizeLimit()
+		}()
+		idx2, size2, headSize2 := c15DirScan(walPath)
+		// direct oracle (independent re-statement): the oldest rotated files go while the total is at or above the
+		// limit, at most maxFilesToRemove per tick; the head is never touched; a limit of 0 switches it off
+		k := 0
+		rem := total
+		if tl != 0 {
+			for k < auto.VerifMaxFilesToRemove() && k < len(idx) && rem >= tl {
+				rem -= size[idx[k]]
+				k++
+			}
+		}
+		okp := len(idx2) == len(idx)-k && headSize2 == headSize
+		for j := 0; okp && j < len(idx2); j++ {
+			okp = idx2[j] == idx[k+j] && size2[idx2[j]] == size[idx[k+j]]
+		}
+		if _, err := os.Stat(walPath); err != nil {
+			o.Fail(c.step, "prune-removed-head", "")
+		}
+		if !okp {
+			o.Fail(c.step, "prune", fmt.Sprintf("limit=%d total=%d rotated before=%v after=%v expected %d oldest removed (head %d -> %d)", tl, total, idx, idx2, k, headSize, headSize2))
+		}
+		still := map[int]bool{}
+		for _, i := range idx2 {
+			still[i] = true
+		}
+		for _, i := range idx { // what is really gone (the expectation is k oldest files)
+			if !still[i] {
+				prunedBytes += size[i]
+			}
+		}
+		if k > 0 {
+			o.Count("op:prune-removed")
+			o.Mark(fmt.Sprintf("prune-removed:%d", k))
+			if k == len(idx) {
+				o.Mark("prune-left-only-head")
+			}
+		} else {
+			o.Count("op:prune-nothing")
+		}
+		total2 := headSize2
+		for _, i := range idx2 {
+			total2 += size2[i]
+		}
+		c.op(fmt.Sprintf("C %d", tl), fmt.Sprintf("c %d %d %d", len(idx2), grp.MaxIndex(), total2))
+	}
+	pruning := profile != 3 && r.Chance(1, 3)
 	if profile != 3 && r.Chance(1, 2) {
 		restart() // the very first start: marker 0 into the empty head
 	}
@@ -1091,13 +1357,28 @@ func (c *c15Case) run(tier string) {
 		if profile != 3 && r.Chance(1, 12) {
 			restart()
 		}
+		if r.Chance(1, 10) {
+			closeHead()
+		}
+		if pruning && r.Chance(1, 4) {
+			if r.Bool() {
+				tick()
+			}
+			prune()
+			if r.Chance(1, 3) {
+				restart() // OpenGroup takes the indices from what is left in the directory
+			}
+		}
 		var m WALMessage
 		var valid bool
 		var kind string
 		direct := false
 		var fixedT time.Time
-		if profile == 3 && (k == 1 || r.Chance(1, 3)) {
+		bufEdge := profile == 2 && r.Chance(1, 4)
+		if (profile == 3 && (k == 1 || k == 2 || r.Chance(1, 3))) || bufEdge {
 			// message size boundary: a vote whose signature length puts the payload at max-1, max, max+1, or far above
+			// (every such case has one message of exactly the maximum and one a byte above it);
+			// write-buffer boundary: a frame that exactly fills what is left of the group's bufio buffer, or the whole buffer, +-1
 			v := &types.Vote{ValidatorIndex: 1, Height: 5, Round: 0, Timestamp: time.Unix(1600000000, 0).UTC(), Type: kproto.PrevoteType,
 				BlockID: c15BlockID(r, 1), Signature: []byte{1}}
 			m = msgInfo{Msg: &VoteMessage{Vote: v}, PeerID: ""}
@@ -1108,11 +1389,29 @@ func (c *c15Case) run(tier string) {
 				return len(b)
 			}
 			target := maxMsgSizeBytes + []int{-1, 0, 1, 700}[r.Pick(2, 4, 4, 1)]
+			switch {
+			case bufEdge:
+				d := r.Intn(3) - 1
+				if avail := bufcap - grp.Buffered(); r.Bool() && avail-8+d > size() {
+					target = avail - 8 + d
+					kind = fmt.Sprintf("vote-frame-fills-buffer-rest%+d", d)
+				} else {
+					target = bufcap - 8 + d
+					kind = fmt.Sprintf("vote-frame-fills-buffer%+d", d)
+				}
+			case k == 1:
+				target = maxMsgSizeBytes
+			case k == 2:
+				target = maxMsgSizeBytes + 1
+			}
+			if !bufEdge {
+				kind = fmt.Sprintf("vote-size-max%+d", target-maxMsgSizeBytes)
+			}
 			v.Signature = bytes.Repeat([]byte{0xab}, target-size())
 			for s := size(); s != target; s = size() {
 				v.Signature = bytes.Repeat([]byte{0xab}, len(v.Signature)+target-s)
 			}
-			valid, kind, direct = true, fmt.Sprintf("vote-size-max%+d", target-maxMsgSizeBytes), true
+			valid, direct = true, true
 			o.Mark(kind)
 		} else {
 			m, valid, kind = g.msg()
@@ -1273,7 +1572,16 @@ func (c *c15Case) run(tier string) {
 	}
 
 	// ---- snapshot of the files on disk
-	files := c15ReadGroupFiles(walPath, grp.MaxIndex())
+	if pruning && r.Chance(1, 2) {
+		prune()
+		if r.Chance(1, 3) {
+			restart()
+		}
+	}
+	files, firstIdx := c15ReadGroupFiles(walPath, grp.MaxIndex())
+	if firstIdx > 0 {
+		o.Mark("oldest-file-index>0")
+	}
 	fps := make([]string, len(files))
 	c.sizes = nil
 	c.base = nil
@@ -1286,12 +1594,25 @@ func (c *c15Case) run(tier string) {
 	if len(files) > 1 {
 		o.Mark(fmt.Sprintf("rotated-files:%d", minInt(len(files), 6)))
 	}
-	// direct oracle: the disk holds a prefix of the frames written, every rotated file ends at a record boundary
+	// direct oracle: the disk holds a prefix of the frames written (minus the whole oldest records whose files were
+	// pruned), every rotated file ends at a record boundary
 	var all []byte
 	bound := map[int]bool{0: true}
 	for _, w := range c.wr {
 		all = append(all, c15Frame(w.payload)...)
 		bound[len(all)] = true
+	}
+	if prunedBytes > int64(len(all)) || !bound[int(prunedBytes)] {
+		o.Fail(c.step, "prune-inside-record", fmt.Sprintf("%d bytes pruned of %d written", prunedBytes, len(all)))
+		prunedBytes = 0
+	}
+	all = all[prunedBytes:]
+	kept := c.wr
+	for a := int64(0); a < prunedBytes && len(kept) > 0; kept = kept[1:] {
+		a += int64(8 + len(kept[0].payload))
+	}
+	if prunedBytes > 0 {
+		o.Count("end:records-pruned")
 	}
 	if !bytes.HasPrefix(all, c.base) {
 		o.Fail(c.step, "disk-not-prefix-of-written", "")
@@ -1300,14 +1621,14 @@ func (c *c15Case) run(tier string) {
 		o.Fail(c.step, "flushed-bytes-missing", fmt.Sprintf("%d of %d", len(c.base), len(all)))
 	}
 	off := 0
-	fileStart := make([]int, len(files)) // index of the first frame of each file
+	fileStart := make([]int, len(files)) // index (in the kept records) of the first frame of each file
 	for i, f := range files {
-		if !bound[off] {
+		if !bound[off+int(prunedBytes)] {
 			o.Fail(c.step, "rotation-inside-record", fmt.Sprintf("file %d starts at offset %d", i, off))
 		}
 		n, a := 0, 0
-		for n < len(c.wr) && a < off {
-			a += 8 + len(c.wr[n].payload)
+		for n < len(kept) && a < off {
+			a += 8 + len(kept[n].payload)
 			n++
 		}
 		fileStart[i] = n
@@ -1315,13 +1636,14 @@ func (c *c15Case) run(tier string) {
 	}
 	c.exp = nil
 	a := 0
-	for _, w := range c.wr {
+	for _, w := range kept {
 		if a+8+len(w.payload) <= len(c.base) {
 			c.exp = append(c.exp, w)
 			a += 8 + len(w.payload)
 		}
 	}
 	c.whole = a == len(c.base)
+	c.fileStart = fileStart
 	if !c.whole {
 		o.Mark("disk-ends-inside-frame")
 	}
@@ -1334,15 +1656,15 @@ func (c *c15Case) run(tier string) {
 	for k := 0; k < nlive; k++ {
 		idx := r.Intn(len(files))
 		cont := r.Bool()
-		gr, err := grp.NewReader(idx)
+		gr, err := grp.NewReader(firstIdx + idx)
 		if err != nil {
 			o.Fail(c.step, "newreader", err.Error())
 			continue
 		}
 		toks := c15DecodeAll(gr, cont)
 		gr.Close()
-		c.checkSeq(fmt.Sprintf("live-read idx=%d", idx), toks, c.exp[minInt(fileStart[idx], len(c.exp)):], cont, c.whole)
-		c.op(fmt.Sprintf("D %d %d", idx, b2i(cont)), "d "+strings.Join(toks, " "))
+		c.checkSeq(fmt.Sprintf("live-read idx=%d", firstIdx+idx), toks, c.exp[minInt(fileStart[idx], len(c.exp)):], cont, c.whole)
+		c.op(fmt.Sprintf("D %d %d", firstIdx+idx, b2i(cont)), "d "+strings.Join(toks, " "))
 	}
 	// searches: every written marker value sometimes, neighbours, absent heights
 	var markers []int64
@@ -1369,6 +1691,7 @@ func (c *c15Case) run(tier string) {
 			decodable = false
 		}
 	}
+	c.mono, c.decodable = mono, decodable
 	if !mono {
 		o.Count("markers:positive-non-monotone")
 	} else {
@@ -1662,9 +1985,9 @@ func (c *c15Case) repairVariant(eds []c15Edit, pureTruncation bool, exp []c15Wri
 	c.op("XR "+c15EditsStr(eds), fmt.Sprintf("r %s %s | %s", st, c15FP(out), strings.Join(pass2, " ")))
 }
 
-func (c *c15Case) searchVariant(h int64, ign bool, eds []c15Edit) {
+func (c *c15Case) searchVariant(h int64, ign bool, eds []c15Edit) (obs string) {
 	if c15Abort {
-		return
+		return ""
 	}
 	data := c15Apply(c.base, eds)
 	c.nvar++
@@ -1673,13 +1996,243 @@ func (c *c15Case) searchVariant(h int64, ign bool, eds []c15Edit) {
 	wal, err := NewWAL(head)
 	if err != nil {
 		c.o.Fail(c.step, "harness-newwal", err.Error())
-		return
+		return ""
 	}
-	obs := c.searchObs(wal, h, ign)
+	obs = c.searchObs(wal, h, ign)
 	wal.Group().Close()
 	wal.Group().Head.Close()
 	os.RemoveAll(dir)
 	c.op(fmt.Sprintf("XS %d %d %s", h, b2i(ign), c15EditsStr(eds)), obs)
+	return obs
+}
+
+// the file of the snapshot that holds frame i of exp
+func (c *c15Case) fileOf(i int) int {
+	f := 0
+	for j, st := range c.fileStart {
+		if st <= i {
+			f = j
+		}
+	}
+	return f
+}
+
+func (c *c15Case) nextTok(ws []c15Written, pos int, damaged int) string {
+	switch {
+	case pos+1 >= len(ws):
+		return "eof"
+	case pos+1 == damaged:
+		return "c:crc"
+	case ws[pos+1].digest == "ERR":
+		return "c:decode"
+	}
+	return "m:" + ws[pos+1].digest
+}
+
+// One frame (index d) damaged in its CRC field or payload — the decoder stays in step with the records.  Direct
+// oracle for SearchForEndHeight: told to skip corrupted entries it finds every intact marker (and nothing else),
+// positioned after it; told not to, it finds the marker or reports the damage, depending only on whether the
+// damaged record lies on its way (newer files first, each read to the end of the log).
+func (c *c15Case) searchDamaged(d int) {
+	r := c.r
+	offs := c.frameOffsets()
+	fo, plen := offs[d], len(c.exp[d].payload)
+	pos := fo + r.Intn(4)
+	if plen > 0 && r.Chance(2, 3) {
+		pos = fo + 8 + r.Intn(plen)
+	}
+	eds := []c15Edit{{kind: "b", off: pos*8 + r.Intn(8)}}
+	var markers []int64
+	for _, w := range c.exp {
+		if w.eh != nil {
+			markers = append(markers, *w.eh)
+		}
+	}
+	var h int64
+	switch {
+	case c.exp[d].eh != nil && r.Chance(1, 3):
+		h = *c.exp[d].eh
+	case len(markers) > 0 && r.Chance(4, 5):
+		h = markers[r.Intn(len(markers))]
+	default:
+		h = int64(r.Intn(12)) - 1
+	}
+	ign := r.Chance(2, 3)
+	obs := c.searchVariant(h, ign, eds)
+	c.o.Count("variant:search-one-frame-damaged")
+	if !(c.mono && c.whole && c.decodable) || obs == "" {
+		return
+	}
+	mp, cnt := -1, 0
+	for i, w := range c.exp {
+		if w.eh != nil && *w.eh == h {
+			mp = i
+			cnt++
+		}
+	}
+	if cnt > 1 {
+		return
+	}
+	var want []string
+	switch {
+	case mp < 0 || mp == d: // never written, or the marker itself is the damaged record
+		want = []string{"s notfound"}
+		if !ign {
+			want = append(want, "s err c:crc")
+		}
+	default:
+		found := "s found " + c.nextTok(c.exp, mp, d)
+		onTheWay := c.fileOf(d) > c.fileOf(mp) || (c.fileOf(d) == c.fileOf(mp) && d < mp)
+		if ign || !onTheWay {
+			want = []string{found}
+		} else {
+			want = []string{"s err c:crc"}
+		}
+	}
+	ok := false
+	for _, w := range want {
+		ok = ok || w == obs
+	}
+	if !ok {
+		c.o.Fail(c.step, "search-damaged", fmt.Sprintf("height=%d ignore=%v frame %d of %d damaged (%s), marker at frame %d: got=[%s] want=%v",
+			h, ign, d, len(c.exp), c15EditsStr(eds), mp, obs, want))
+	}
+}
+
+// The OnStart repair steps inside a file group: the rotated files stay as they are, the head file is backed up by
+// copying and repaired in place; then the whole group is replayed and searched, as the second catchupReplay does.
+func (c *c15Case) repairGroupVariant(eds []c15Edit, h int64, ign bool) {
+	o := c.o
+	if c15Abort {
+		return
+	}
+	data := c15Apply(c.base, eds)
+	c.nvar++
+	dir := filepath.Join(c.tmp, fmt.Sprintf("q%d", c.nvar))
+	head := c15WriteGroup(dir, c.sizes, data)
+	headStart := 0
+	for _, sz := range c.sizes[:len(c.sizes)-1] {
+		headStart += sz
+	}
+	if headStart > len(data) {
+		headStart = len(data)
+	}
+	hd := data[headStart:]
+	bak := head + ".CORRUPTED"
+	if cerr := kos.CopyFile(head, bak); cerr != nil {
+		o.Fail(c.step, "harness-copy", cerr.Error())
+		return
+	}
+	var err error
+	func() {
+		defer func() {
+			if x := recover(); x != nil {
+				err = fmt.Errorf("PANIC")
+				o.Fail(c.step, "panic-repair", fmt.Sprint(x))
+			}
+		}()
+		err = repairWalFile(bak, head)
+	}()
+	out, _ := os.ReadFile(head)
+	if b, _ := os.ReadFile(bak); !bytes.Equal(b, hd) {
+		o.Fail(c.step, "repair-backup-changed", "the .CORRUPTED backup is not the corrupted head file")
+	}
+	st := "ok"
+	if err != nil {
+		st = "err"
+		o.Fail(c.step, "repair-error", fmt.Sprint(err))
+	}
+	var toks []string
+	sobs := "s -"
+	if wal, werr := NewWAL(head); werr == nil {
+		g2 := wal.Group()
+		if gr, rerr := g2.NewReader(g2.MinIndex()); rerr == nil {
+			toks = c15DecodeAll(gr, false)
+			gr.Close()
+		}
+		sobs = c.searchObs(wal, h, ign)
+		g2.Close()
+		g2.Head.Close()
+	} else {
+		o.Fail(c.step, "harness-newwal", werr.Error())
+	}
+	os.RemoveAll(dir)
+	want, off := c.specRepair(hd)
+	quirk := false
+	if !bytes.Equal(out, want) {
+		if bytes.HasPrefix(out, want) && off < len(hd) {
+			extra, rem := out[len(want):], hd[off:]
+			if len(extra) > len(rem) && bytes.HasPrefix(extra, rem) && len(bytes.Trim(extra[len(rem):], "\x00")) == 0 && len(rem) > 4 {
+				quirk = true
+				o.Count("repair:zero-completed-last-frame")
+			}
+		}
+		if !quirk {
+			o.Fail(c.step, "repair-not-longest-valid-prefix", fmt.Sprintf("group head, edits=[%s] got=%s want=%s", c15EditsStr(eds), c15FP(out), c15FP(want)))
+		}
+	}
+	// the records the repaired group must hold: those of the untouched rotated files, then those of the head's valid prefix
+	nRot := c.fileStart[len(c.fileStart)-1]
+	if nRot > len(c.exp) {
+		nRot = len(c.exp)
+	}
+	if !quirk && bytes.Equal(data[:headStart], c.base[:headStart]) {
+		keptW := append([]c15Written(nil), c.exp[:nRot]...)
+		for a := 0; a+8 <= len(want); {
+			ln := int(binary.BigEndian.Uint32(want[a+4:]))
+			pl := want[a+8 : a+8+ln]
+			e := c.table[string(pl)]
+			keptW = append(keptW, c15Written{payload: pl, digest: e.digest, eh: e.eh, valid: true})
+			a += 8 + ln
+		}
+		dec := true
+		for _, w := range keptW {
+			dec = dec && w.digest != "ERR"
+		}
+		if dec {
+			wt := make([]string, 0, len(keptW)+1)
+			for _, w := range keptW {
+				wt = append(wt, "m:"+w.digest)
+			}
+			wt = append(wt, "eof")
+			if strings.Join(toks, " ") != strings.Join(wt, " ") {
+				o.Fail(c.step, "repaired-group-replay", fmt.Sprintf("edits=[%s]: replay of the repaired group gives %d tokens ending %v, want %d records then eof",
+					c15EditsStr(eds), len(toks), toks[maxInt(0, len(toks)-2):], len(keptW)))
+			}
+			mono, lastPos, mp, cnt := true, int64(0), -1, 0
+			for i, w := range keptW {
+				if w.eh != nil {
+					if *w.eh > 0 {
+						mono = mono && *w.eh > lastPos
+						lastPos = *w.eh
+					}
+					if *w.eh == h {
+						mp = i
+						cnt++
+					}
+				}
+			}
+			if mono && cnt <= 1 {
+				ws := "s notfound"
+				if mp >= 0 {
+					ws = "s found " + c.nextTok(keptW, mp, -1)
+				}
+				if sobs != ws {
+					o.Fail(c.step, "search-after-repair", fmt.Sprintf("edits=[%s] height=%d ignore=%v got=[%s] want=[%s]", c15EditsStr(eds), h, ign, sobs, ws))
+				}
+			}
+			o.Count("repair-group:checked-strictly")
+		}
+	}
+	c.op(fmt.Sprintf("XG %d %d %s", h, b2i(ign), c15EditsStr(eds)),
+		fmt.Sprintf("rg %s %s | %s | %s", st, c15FP(out), strings.Join(toks, " "), sobs))
+}
+
+func maxInt(a, b int) int {
+	if a > b {
+		return a
+	}
+	return b
 }
 
 func (c *c15Case) frameOffsets() []int {
@@ -1727,8 +2280,8 @@ func (c *c15Case) corrupt(tier string, profile int) {
 		c.variant("g", false, []c15Edit{{kind: "t", off: n}}, c.exp, false, false)
 		return
 	}
-	small := L <= 420
-	exhaustiveBits := small && (tier == "thorough" && c.idx%4 == 0 || c.idx%16 == 3)
+	small := L <= 420 || (c.forceSmall && L <= 900)
+	exhaustiveBits := small && (tier == "thorough" && c.idx%4 == 0 || c.forceSmall)
 	// ---- truncation at every offset (small logs) or at sampled offsets incl. all header boundaries of some frames
 	var cuts []int
 	if small {
@@ -1959,6 +2512,57 @@ func (c *c15Case) corrupt(tier string, profile int) {
 				}
 			}
 			c.searchVariant(h, r.Chance(3, 4), eds)
+		}
+	}
+	// ---- one record damaged, SearchForEndHeight with and without IgnoreDataCorruptionErrors
+	if len(c.exp) > 0 {
+		nd := 4
+		if profile == 1 {
+			nd = 8
+		}
+		for i := 0; i < nd; i++ {
+			c.searchDamaged(r.Intn(len(c.exp)))
+		}
+	}
+	// ---- the OnStart repair steps inside the file group (head damaged, rotated files intact — mostly)
+	headStart := 0
+	for _, sz := range c.sizes[:len(c.sizes)-1] {
+		headStart += sz
+	}
+	ng := 5
+	if profile == 1 {
+		ng = 8
+	}
+	for i := 0; i < ng; i++ {
+		var eds []c15Edit
+		hl := L - headStart
+		switch {
+		case hl <= 0 || r.Chance(1, 6):
+			eds = []c15Edit{{kind: "a", data: r.Bytes(1 + r.Intn(24))}}
+		case r.Chance(1, 8):
+			eds = []c15Edit{{kind: "b", off: r.Intn(8 * L)}} // anywhere: a damaged rotated file is not repaired
+		default:
+			switch r.Pick(4, 3, 2, 1) {
+			case 0:
+				eds = []c15Edit{{kind: "b", off: 8*headStart + r.Intn(8*hl)}}
+			case 1:
+				eds = []c15Edit{{kind: "t", off: headStart + r.Intn(hl)}}
+			case 2:
+				eds = []c15Edit{{kind: "e", off: headStart + r.Intn(hl), data: r.Bytes(1 + r.Intn(6))}}
+			default:
+				eds = nil
+			}
+		}
+		var h int64 = int64(r.Intn(10))
+		for _, w := range c.exp {
+			if w.eh != nil && r.Chance(1, 3) {
+				h = *w.eh
+			}
+		}
+		c.repairGroupVariant(eds, h, r.Chance(2, 3))
+		o.Count("variant:repair-in-group")
+		if len(c.sizes) > 1 {
+			o.Mark("repair-in-rotated-group")
 		}
 	}
 }
